@@ -15,10 +15,11 @@ PROPS = {
     "C08": P(["pipe"]),
     "C09": P(["hostile", "pipe"], panic_owner="C09"),
     "C10": P(["recover", "control"]),
-    "C11": P(["control", "recover", "pipe"], panic_owner="C11"),
+    "C11": P(["control", "recover", "pipe", "apply"], panic_owner="C11"),
     "C12": P(["force", "control"], panic_owner="C12"),
     "C13": P(["reconf"]),
     "C14": P(["api"], level="fault_enumeration"),
     "C15": P(["import"], level="fault_enumeration"),
+    "C16": P(["apply"]),
     "C17": P(["persist", "api"]),
 }
